@@ -16,7 +16,8 @@ TRANSLATION TABLE (Python → Lean)
   a < b (<=, >, >=) on ints             decide (a < b) …                         every condition is a `Bool`
   a == b, a != b                        (a == b), (a != b)
   a < b <= c (chains)                   (decide (a < b) && decide (b ≤ c))       operands are pure, evaluated once
-  (a1,..,an) < (b1,..,bn) literal tuples  lexicographic: decide (a1 < b1) || (a1 == b1 && …)   (<= on the last for <=)
+  s < t (<=, >, >=), s t tuple literals or values of a fixed-tuple type of the same length
+                                        lexicographic: (decide (s1 < t1) || ((s1 == t1) && …))   (≤ on the last for <=)
   x in xs / x not in xs                 (xs.contains x) / (!xs.contains x)
   a and b / a or b / not a              (a && b) / (a || b) / (!a)                operands Bool; in a test position
                                         truthiness: Int → (x != 0), list → (!x.isEmpty), Option → x.isSome
@@ -52,8 +53,16 @@ TRANSLATION TABLE (Python → Lean)
   self._x.get(k, None) / self._x[k] = v (List.lookup k x) : Option / let x := (k, v) :: x
   if v is not None: A (returns) ; rest  match v with | some v => A | none => rest      (v an Option; also `is None`)
   docstrings, `pass`, type annotations  dropped
+  while c: body; rest (registry fuel)   auxiliary definition, structurally recursive on a `fuel : Nat` parameter:
+                                        F (fuel+1) vars = if c then (body; F fuel vars') else rest;  F 0 vars = .error Py.Err.Fuel
+                                        (`continue` = the recursive call, `break` = rest, `return` returns; `while True:` without
+                                        break: F (fuel+1) vars = body, the unreachable rest is dropped)
+  heappush(xs, e)                       let xs := Mesa.Heap.heappush lt xs e        lt = the translated `__lt__` (registry `order`)
+  x = heappop(xs)                       match Mesa.Heap.heappop lt xs with | none => .error Py.Err.Index | some (x, xs) => …
+  obj.PROP (registry props)             (PROP obj): call of the translated property getter;  len(obj) → (len_ obj) if `__len__` is translated
+  record given as `extern`              the hand-written model's structure; attributes map to its fields as the registry says
 NOT in the subset: floats, strings (except in `raise`), dict values, sets, slices, list indexing, nested defs, lambda,
-try/with, while (see registry `fuel`), break, return inside for, *args/**kwargs, walrus, global state, division by 0.
+try/with, while without fuel, break in for, return inside for, *args/**kwargs, walrus, global state, division by 0.
 """
 from __future__ import annotations
 
@@ -74,7 +83,7 @@ LEAN_KEYWORDS = {"at", "from", "end", "fun", "open", "in", "let", "have", "show"
                  "structure", "import", "export", "local", "private", "protected", "mutual", "deriving", "Type", "Prop",
                  "Sort", "this", "macro", "syntax", "notation", "universe", "set_option", "calc", "using", "for"}
 OUT = "effects_"     # the implicit list of effects (registry `effects`)
-ERRORS = {"IndexError": "Index", "ValueError": "Value", "KeyError": "Key", "TypeError": "Type",
+ERRORS = {"Fuel": "Fuel", "IndexError": "Index", "ValueError": "Value", "KeyError": "Key", "TypeError": "Type",
           "NotImplementedError": "NotImplemented", "Exception": "Exception"}
 
 
@@ -83,6 +92,9 @@ class Rec:
     """a Lean structure standing for the part of a Python object the translated functions read"""
     name: str
     fields: dict  # attr -> type
+    extern: str | None = None     # an existing Lean structure (of the hand-written model) used instead of a generated one
+    access: dict = field(default_factory=dict)   # extern only: attr -> Lean text with `{}` for the object, e.g. "({}.prio : Int)"
+    literal: str | None = None    # extern only: Lean literal with `{attr}` holes (used by the self-test)
 
 
 @dataclass
@@ -97,7 +109,13 @@ class Fn:
     effects: dict = field(default_factory=dict)   # "cell.connect" -> element type of the emitted list (a ("T", ..))
     keyed: tuple = ()              # dotted names of dicts whose values are named by their key: `self._cells[k]` → k
     state: dict = field(default_factory=dict)     # "self._cache" -> type: attributes the function mutates
+    fuel: bool = False             # `while` loops allowed: the definition gets a `fuel : Nat` parameter
+    order: str | None = None       # Lean name of the translated `__lt__` that heappush / heappop compare with
+    props: dict = field(default_factory=dict)     # attribute that is a @property -> python name of its translated getter
     defaults_ok: bool = True       # parameters' default values are ignored (callers pass everything)
+
+
+EXTERN = {}     # record name -> Lean name of extern records (filled by generate_group)
 
 
 def lean_ty(t):
@@ -110,7 +128,7 @@ def lean_ty(t):
     if t[0] == "T":
         return "(" + " × ".join(lean_ty(x) for x in t[1:]) + ")"
     if t[0] == "R":
-        return t[1]
+        return EXTERN.get(t[1], t[1])
     if t[0] == "E":
         return f"(Except Py.Err {lean_ty(t[1])})"
     if t[0] == "D":
@@ -162,8 +180,11 @@ class Translator:
         self.outs = []          # implicit outputs: effect list `out`
         self.can_raise = False
         self.ret_ty = None
+        self.prelude = []       # text of the auxiliary definitions
         self.tokens = {}        # placeholders of pending type annotations
         self.returns_value = False
+        self.breaks = []        # per enclosing loop: env -> lines after the loop (`while`), None for `for`
+        self.aux = []           # auxiliary definitions (one per `while`), emitted before the main definition
         self.loops = []         # per enclosing `for`: env -> lines of the loop state (what `continue` evaluates to)
 
     # ------------------------------------------------------------------ helpers
@@ -290,17 +311,28 @@ class Translator:
             return f"decide ({a} {sym} {b})"
         self.bad(node, f"comparison {type(op).__name__} on {ta}, {tb}")
 
+    def components(self, x, env):
+        """[(text, type)] of the components of a tuple literal / a value of a fixed-tuple type; None for anything else"""
+        if isinstance(x, ast.Tuple) and len(x.elts) >= 2:
+            return [self.expr(y, env) for y in x.elts]
+        t, ty = self.expr(x, env)
+        if ty and ty[0] == "T":
+            n = len(ty) - 1
+            return [(f"{t}" + ".2" * i + (".1" if i < n - 1 else ""), ty[i + 1]) for i in range(n)]
+        return None
+
     def e_Compare(self, e, env):
         operands = [e.left, *e.comparators]
-        # literal tuples compared lexicographically
-        if len(e.ops) == 1 and all(isinstance(x, ast.Tuple) for x in operands) and isinstance(e.ops[0], (ast.Lt, ast.LtE)) \
-                and len(operands[0].elts) == len(operands[1].elts):
-            ls = [self.expr(x, env) for x in operands[0].elts]
-            rs = [self.expr(x, env) for x in operands[1].elts]
-            text = self._cmp(e.ops[0], ls[-1], rs[-1], e)
-            for l, r in reversed(list(zip(ls[:-1], rs[:-1]))):
-                text = f"({self._cmp(ast.Lt(), l, r, e)} || ({self._cmp(ast.Eq(), l, r, e)} && {text}))"
-            return text, "Bool"
+        # tuples (literals or values of a fixed-tuple type) compared lexicographically
+        if len(e.ops) == 1 and isinstance(e.ops[0], (ast.Lt, ast.LtE, ast.Gt, ast.GtE)):
+            sides = [self.components(x, env) for x in operands]
+            if all(c is not None for c in sides) and len(sides[0]) == len(sides[1]):
+                ls, rs = sides if isinstance(e.ops[0], (ast.Lt, ast.LtE)) else sides[::-1]       # a > b  is  b < a
+                last = ast.Lt() if isinstance(e.ops[0], (ast.Lt, ast.Gt)) else ast.LtE()
+                text = self._cmp(last, ls[-1], rs[-1], e)
+                for l, r in reversed(list(zip(ls[:-1], rs[:-1]))):
+                    text = f"({self._cmp(ast.Lt(), l, r, e)} || ({self._cmp(ast.Eq(), l, r, e)} && {text}))"
+                return text, "Bool"
         vals = [self.expr(x, env) for x in operands]
         parts = [self._cmp(op, vals[i], vals[i + 1], e) for i, op in enumerate(e.ops)]
         return (parts[0] if len(parts) == 1 else "(" + " && ".join(parts) + ")"), "Bool"
@@ -310,8 +342,12 @@ class Translator:
         if d in env:                                  # state attribute held in a local
             return self.v(d), env[d]
         t, ty = self.expr(e.value, env)
+        if ty and ty[0] == "R" and e.attr in self.fn.props and self.fn.props[e.attr] in self.group:
+            gfn, rty = self.group[self.fn.props[e.attr]]
+            return f"({gfn.name} {t})", rty
         if ty and ty[0] == "R" and e.attr in self.recs[ty[1]].fields:
-            return f"{t}.{e.attr}", self.recs[ty[1]].fields[e.attr]
+            r = self.recs[ty[1]]
+            return (r.access[e.attr].format(t) if r.extern else f"{t}.{e.attr}"), r.fields[e.attr]
         self.bad(e, f"attribute `{e.attr}` of a value of type {ty} is not declared in the registry")
 
     def e_Subscript(self, e, env):
@@ -383,6 +419,9 @@ class Translator:
             self.bad(e, "keyword arguments")
         vals = [self.expr(a, env) if not (isinstance(a, ast.Constant) and a.value is None) else ("none", None) for a in args]
         tys = [v[1] for v in vals]
+        if f == "len" and len(vals) == 1 and tys[0] and tys[0][0] == "R" and "__len__" in self.group:
+            gfn, rty = self.group["__len__"]
+            return f"({gfn.name} {vals[0][0]})", rty
         if f == "len" and len(vals) == 1 and tys[0] and tys[0][0] == "L":
             return f"({vals[0][0]}.length : Int)", "Int"
         if f == "abs" and tys == ["Int"]:
@@ -433,15 +472,24 @@ class Translator:
                 if isinstance(s, ast.Assign):
                     for t in s.targets:
                         tgt(t)
+                    if isinstance(s.value, ast.Call) and _dotted(s.value.func) in ("heappop", "heapq.heappop") and s.value.args:
+                        d = _dotted(s.value.args[0])
+                        if d and d not in out:
+                            out.append(d)
                 elif isinstance(s, (ast.AugAssign, ast.AnnAssign)):
                     tgt(s.target)
                 elif isinstance(s, ast.Expr) and isinstance(s.value, ast.Call) and isinstance(s.value.func, ast.Attribute):
                     d = OUT if _dotted(s.value.func) in self.fn.effects else _dotted(s.value.func.value)
                     if d and d not in out:
                         out.append(d)           # xs.append(..): xs is (re)assigned
+                elif isinstance(s, ast.Expr) and isinstance(s.value, ast.Call) and s.value.args and \
+                        _dotted(s.value.func) in ("heappush", "heapq.heappush"):
+                    d = _dotted(s.value.args[0])
+                    if d and d not in out:
+                        out.append(d)
                 elif isinstance(s, ast.If):
                     walk(s.body), walk(s.orelse)
-                elif isinstance(s, ast.For):
+                elif isinstance(s, (ast.For, ast.While)):
                     walk(s.body)
         walk(stmts)
         return out
@@ -487,7 +535,7 @@ class Translator:
         if isinstance(s, ast.Pass) or (isinstance(s, ast.Expr) and isinstance(s.value, ast.Constant)):
             return k(env)
         if isinstance(s, ast.Return):
-            if s.value is None:
+            if s.value is None or (isinstance(s.value, ast.Constant) and s.value.value is None):
                 return [self.wrap_ret(None)]
             t, ty = self.expr(s.value, env)
             self.note_ret(ty)
@@ -520,6 +568,12 @@ class Translator:
             return self.s_If(s, env, k)
         if isinstance(s, ast.For):
             return self.s_For(s, env, k)
+        if isinstance(s, ast.While):
+            return self.s_While(s, env, k)
+        if isinstance(s, ast.Break):
+            if not self.breaks or self.breaks[-1] is None:
+                self.bad(s, "break outside a while loop")
+            return self.breaks[-1](env)
         self.bad(s, f"statement {type(s).__name__} outside the subset")
 
     @staticmethod
@@ -574,6 +628,15 @@ class Translator:
             env[tg.id] = ("L", None)          # dict used as an insertion-ordered set of keys; element type from first insert
             env["#set:" + tg.id] = True
             return [f"let {self.v(tg.id)}{self.pending(env, tg.id)} := []"] + k(env)
+        if isinstance(s.value, ast.Call) and _dotted(s.value.func) in ("heappop", "heapq.heappop") and isinstance(tg, ast.Name) \
+                and len(s.value.args) == 1 and _dotted(s.value.args[0]) in env and self.fn.order:
+            h = _dotted(s.value.args[0])
+            hty = env[h]
+            if not hty or hty[0] != "L":
+                self.bad(s, f"heappop on a value of type {hty}")
+            env[tg.id] = hty[1]
+            return [f"match Mesa.Heap.heappop {self.fn.order} {self.v(h)} with", f"| none => {self.wrap_ret(None, error='Index')}",
+                    f"| some ({self.v(tg.id)}, {self.v(h)}) => ("] + _ind(k(env)) + [")"]
         t, ty = self.expr(s.value, env)
         if ann is not None and not self.closed(ty):
             ty = ann                       # e.g. `xs: list[int] = []`
@@ -600,6 +663,9 @@ class Translator:
     def s_CallStmt(self, c, env, k):
         f = _dotted(c.func)
         env = dict(env)
+        if f in ("heappush", "heapq.heappush") and len(c.args) == 2 and not c.keywords and _dotted(c.args[0]) in env and self.fn.order:
+            h = _dotted(c.args[0])
+            return self.let(self.v(h), f"Mesa.Heap.heappush {self.fn.order} {self.v(h)} {self.expr(c.args[1], env)[0]}") + k(env)
         if f in self.fn.effects:
             vals = [self.expr(a, env)[0] for a in c.args]
             if c.keywords or len(vals) != len(self.fn.effects[f]) - 1:
@@ -672,13 +738,50 @@ class Translator:
                         env[tag + x] = e[tag + x]
         return [f"let {tup} := if {c} then ("] + _ind(a) + [") else ("] + _ind(b) + [")"] + k(env)
 
+    def s_While(self, s, env, k):
+        """`while c: body; rest` → an auxiliary structurally recursive definition over `fuel`:
+             NAME (fuel+1) vars = if c then (body; NAME fuel vars') else rest        NAME 0 vars = error Fuel
+           `vars` are all variables in scope; `continue` is the recursive call, `break` is `rest`, `return` returns."""
+        if not self.fn.fuel:
+            self.bad(s, "while loop (the registry does not give this function a fuel parameter)")
+        if s.orelse:
+            self.bad(s, "while/else")
+        names = [x for x in env if not x.startswith("#")]
+        if "fuel" in names:
+            self.bad(s, "a variable named fuel")
+        for x in names:
+            if not self.closed(env[x]):
+                self.bad(s, f"type of `{x}` unknown at the while loop")
+        name = f"{self.fn.name}.while{len(self.aux) + 1}"
+
+        def again(e):
+            return [" ".join([name, "fuel", *[self.v(x) for x in names]])]
+        self.aux.append(None)
+        idx = len(self.aux) - 1
+        c = self.cond(s.test, env)
+        self.loops.append(again)
+        self.breaks.append(lambda e: k(dict(e)))
+        body = self.block(s.body, dict(env), again)
+        self.loops.pop()
+        self.breaks.pop()
+        binders = " ".join(f"({self.v(x)} : {lean_ty(env[x])})" for x in names)
+        head = [f"def {name} (fuel : Nat) {binders} : ⟪RET⟫ :=", "  match fuel with",
+                f"  | 0 => {self.wrap_ret(None, error='Fuel')}", "  | fuel+1 =>"]
+        if isinstance(s.test, ast.Constant) and s.test.value is True and not any(isinstance(n, ast.Break) for n in ast.walk(s)):
+            self.aux[idx] = head + _ind(body, 4)          # `while True:` without break: what follows is unreachable
+        else:
+            rest = k(dict(env))
+            self.aux[idx] = head + [f"    if {c} then ("] + _ind(body, 6) + ["    ) else ("] + _ind(rest, 6) + ["    )"]
+        return again(env)
+
     def s_For(self, s, env, k):
         if s.orelse:
             self.bad(s, "for/else")
         if self.escapes(s.body, loop=True):
             self.bad(s, "return / raise inside a for loop")
-        if any(isinstance(n, ast.Break) for n in ast.walk(s)):
-            self.bad(s, "break")
+        if any(isinstance(n, ast.Break) for n in ast.walk(ast.Module(body=[x for x in s.body if not isinstance(x, ast.While)],
+                                                                      type_ignores=[]))):
+            self.bad(s, "break inside a for loop")
         it, ity = self.iterable(s.iter, env)
         if not ity or ity[0] != "L":
             self.bad(s.iter, f"iteration over a value of type {ity}")
@@ -696,8 +799,10 @@ class Translator:
             envs.append(e)
             return [tup]
         self.loops.append(fin)
+        self.breaks.append(None)
         body = self.block(s.body, benv, fin)
         self.loops.pop()
+        self.breaks.pop()
         env = dict(env)
         for x in vs:                      # element types discovered in the body (e.g. first append to [])
             for e in envs:
@@ -717,20 +822,24 @@ class Translator:
             if not fn.self_rec:
                 self.bad(node, "method without a registry record for self")
             env["self"] = ("R", fn.self_rec)
-            binders.append(f"(self : {fn.self_rec})")
+            binders.append(f"(self : {lean_ty(('R', fn.self_rec))})")
             names = names[1:]
         if set(names) != set(fn.params):
             self.bad(node, f"parameters {names} differ from the registry's {sorted(fn.params)}")
         for n in names:
             env[n] = fn.params[n]
             binders.append(f"({self.v(n)} : {lean_ty(fn.params[n])})")
-        self.can_raise = any(isinstance(n, ast.Raise) for n in ast.walk(node))
-        self.returns_value = any(isinstance(n, ast.Return) and n.value is not None for n in ast.walk(node))
+        self.can_raise = any(isinstance(n, (ast.Raise, ast.While)) for n in ast.walk(node)) or any(
+            isinstance(n, ast.Call) and _dotted(n.func) in ("heappop", "heapq.heappop") for n in ast.walk(node))
+        if fn.fuel:
+            binders.append("(fuel : Nat)")
+        self.returns_value = any(isinstance(n, ast.Return) and n.value is not None and not (
+            isinstance(n.value, ast.Constant) and n.value.value is None) for n in ast.walk(node))
         for n in ast.walk(node):
             if isinstance(n, (ast.FunctionDef, ast.AsyncFunctionDef, ast.Lambda, ast.ClassDef)) and n is not node:
                 self.bad(n, "nested def / lambda / class")
             if isinstance(n, (ast.Yield, ast.YieldFrom, ast.Await, ast.Global, ast.Nonlocal, ast.Try, ast.With, ast.NamedExpr,
-                              ast.While, ast.Delete, ast.Import, ast.ImportFrom, ast.Assert)):
+                              ast.Delete, ast.Import, ast.ImportFrom, ast.Assert)):
                 self.bad(n, f"{type(n).__name__} outside the subset")
         lines = []
         if fn.effects:
@@ -755,6 +864,15 @@ class Translator:
             outs = [env[o] for o in self.outs]
             rty = val if not outs else ("T", *outs) if (val == "Unit" and len(outs) > 1) else outs[0] if val == "Unit" \
                 else ("T", val, *outs)
+        if self.aux:
+            if rty is None:
+                self.bad(node, "result type of a function with a while loop could not be inferred")
+            pre = []
+            for a in self.aux:
+                pre += [l.replace("⟪RET⟫", lean_ty(rty)) for l in a] + [""]
+            for tok, val in self.tokens.items():
+                pre = [l.replace(tok, val or "") for l in pre]
+            self.prelude = pre
         sig = f"def {fn.name} " + " ".join(binders) + (f" : {lean_ty(rty)}" if rty else "") + " :="
         return sig, _ind(lines), rty
 
@@ -766,14 +884,23 @@ def render_group(namespace, header, recs, items, imports=("MesaModel.Base.PyPrim
     L.append(f"namespace {namespace}")
     L.append("")
     for r in recs:
-        L.append(f"structure {r.name} where")
-        for f, t in r.fields.items():
-            L.append(f"  {f} : {lean_ty(t)}")
-        L.append("deriving Repr, DecidableEq")
-        fs = [f"r.{f}" for f in r.fields]
-        L.append(f"instance : Py.Show {r.name} := ⟨fun r => Py.Show.show_ " + (fs[0] if len(fs) == 1 else "(" + ", ".join(fs) + ")") + "⟩")
+        if r.extern:
+            L.append(f"/-- `{r.name}`: the model's `{r.extern}`; attributes read as " +
+                     ", ".join(f"{a} ↦ {t.format('·')}" for a, t in r.access.items()) + " -/")
+            fs = [r.access[f].format("r") for f in r.fields]
+        else:
+            L.append(f"structure {r.name} where")
+            for f, t in r.fields.items():
+                L.append(f"  {f} : {lean_ty(t)}")
+            L.append("deriving Repr, DecidableEq")
+            fs = [f"r.{f}" for f in r.fields]
+        L.append(f"instance : Py.Show {lean_ty(('R', r.name))} := ⟨fun r => Py.Show.show_ " + (fs[0] if len(fs) == 1 else "(" + ", ".join(fs) + ")") + "⟩")
         L.append("")
     for fn, info, sig, lines in items:
+        if info is not None and not sig.startswith("--") and "\n" in sig:
+            L.append(f"-- auxiliary definitions of `{fn.name}` (one per `while` loop), GENERATED from the same source lines")
+            aux, sig = sig.rsplit("\n", 1)
+            L.append(aux)
         if info is not None and not sig.startswith("--"):
             L.append(f"/-- GENERATED from {info['file']}:{info['lines'][0]}-{info['lines'][1]} (`{fn.qualname}`), do not edit -/")
         L.append(sig)
@@ -786,6 +913,8 @@ def render_group(namespace, header, recs, items, imports=("MesaModel.Base.PyPrim
 def generate_group(repo, g, group_name):
     """g = {"namespace", "path", "recs": [Rec], "fns": [Fn], "header"} → (lean text, [info], [problem strings])"""
     recs = {r.name: r for r in g["recs"]}
+    EXTERN.clear()
+    EXTERN.update({r.name: r.extern for r in g["recs"] if r.extern})
     done, items, infos, problems = {}, [], [], []
     files = sorted({fn.file for fn in g["fns"]})
     for fn in g["fns"]:
@@ -796,9 +925,10 @@ def generate_group(repo, g, group_name):
             items.append((fn, None, f"-- UNTRANSLATABLE `{fn.qualname}`: {e}", []))
             continue
         try:
-            sig, lines, rty = Translator(fn, recs, done).translate(node)
+            tr = Translator(fn, recs, done)
+            sig, lines, rty = tr.translate(node)
             done[fn.qualname.split(".")[-1]] = (fn, rty)
-            items.append((fn, info, sig, lines))
+            items.append((fn, info, "\n".join(tr.prelude + [sig]), lines))
         except Untranslatable as e:
             info = dict(info, untranslatable=str(e))
             problems.append(f"{fn.qualname} ({fn.file}:{info['lines'][0]}-{info['lines'][1]}): Untranslatable: {e}")
@@ -806,4 +936,5 @@ def generate_group(repo, g, group_name):
         infos.append(info)
     header = (f"GENERATED by harness/py2lean.py (group {group_name}) from " + ", ".join(files) +
               " of the checked repository — rewritten on every check, do not edit.")
-    return render_group(g["namespace"], header, g["recs"], items), infos, problems
+    return render_group(g["namespace"], header, g["recs"], items,
+                        imports=("MesaModel.Base.PyPrim", *g.get("imports", ()))), infos, problems
